@@ -29,6 +29,10 @@ type C06Case struct {
 	// "f:<name>" for a function, "|<name>" for a filter; built-in names included
 	Occ    string   `json:"occ,omitempty"`
 	Refuse []string `json:"refuse,omitempty"`
+	// Probe: the same occurrence with a spy call in place of the refused name's expression; it
+	// tells whether that exact place is evaluated in the arrangement (variables may be absent
+	// where the occurrence ends up, e.g. at the top level of an imported library)
+	Probe string `json:"probe,omitempty"`
 }
 
 // occurrence templates: F is replaced by the filter application "|forbid", G(x) by
@@ -91,7 +95,7 @@ var c06FuncPos = []struct{ name, src string }{
 }
 
 var c06CarrierNames = []string{"include", "include-only", "include-with", "extends+override", "extends(parent-body)", "parent()", "import-as+call", "from-import+call",
-	"local-macro", "apply", "for", "if", "block", "set-then-print"}
+	"local-macro", "apply", "for", "if", "block", "set-then-print", "import-as(library-top-level)", "from-import(library-top-level)"}
 
 const c06Vars = "{'x': x, 'y2': y2, 'xs': xs, 't': t, 'nul': nul, 'mp': mp}"
 
@@ -133,6 +137,14 @@ func c06Carry(k, d int, b string, tm map[string]string) string {
 		return "{% if t %}" + b + "{% endif %}"
 	case 12:
 		return "{% block z" + n + " %}" + b + "{% endblock %}"
+	case 14:
+		// the occurrence stands at the top level of an imported library, outside its macros: it
+		// runs when the library is imported
+		tm[n] = b + "{% macro cm" + n + "() %}m{% endmacro %}"
+		return "{% import '" + n + "' as lib" + n + " %}{{ lib" + n + ".cm" + n + "() }}"
+	case 15:
+		tm[n] = "{% macro cm" + n + "() %}m{% endmacro %}" + b
+		return "{% from '" + n + "' import cm" + n + " %}{{ cm" + n + "() }}"
 	default:
 		return "{% set s" + n + " = 1 %}" + b
 	}
@@ -191,7 +203,7 @@ func c06Build(c C06Case, sandboxed bool) (map[string]string, string) {
 func c06ValidChain(cs []int) bool {
 	for i, k := range cs {
 		if k >= 3 && k <= 5 {
-			if i > 0 && cs[i-1] > 2 {
+			if i > 0 && cs[i-1] > 2 && cs[i-1] < 14 {
 				return false
 			}
 		}
@@ -371,7 +383,8 @@ func c06NamedPolicy(c C06Case, allowAllNames bool) twig.SecurityPolicy {
 func checkC06Named(c C06Case) (bool, error) {
 	// is the occurrence position evaluated at all in this arrangement? (measured with a spy)
 	probe := c
-	probe.Occ, probe.Refuse, probe.Pos, probe.Fn = "", nil, 0, false
+	probe.Occ, probe.Refuse, probe.Pos, probe.Fn = c.Probe, nil, 0, false
+	probe.Probe = ""
 	if live, _ := checkC06Live(probe); !live {
 		return false, nil
 	}
@@ -418,6 +431,15 @@ func TestC06Named(t *testing.T) {
 		if !c06ValidChain(c.Carriers) {
 			return
 		}
+		if c.Probe == "" {
+			// occurrences without a probe of their own are only claimed where the context
+			// variables reach them (the top level of an imported library sees none)
+			for _, k := range c.Carriers {
+				if k >= 14 {
+					return
+				}
+			}
+		}
 		live, err := checkC06Named(c)
 		cl := []string{"refuse:" + strings.Join(c.Refuse, ","), fmt.Sprintf("chain-length:%d", len(c.Carriers))}
 		if !live {
@@ -438,13 +460,19 @@ func TestC06Named(t *testing.T) {
 			if p.iterOnly && !b.iter {
 				continue
 			}
-			occs = append(occs, C06Case{Occ: strings.ReplaceAll(p.src, "V", "("+b.expr+")"), Refuse: []string{b.refuse}})
+			probeOcc := strings.ReplaceAll(p.src, "V", "(forbid_fn(xs))")
+			occs = append(occs, C06Case{Occ: strings.ReplaceAll(p.src, "V", "("+b.expr+")"), Refuse: []string{b.refuse}, Probe: probeOcc})
 			if p.iterOnly || p.name == "print" || p.name == "if-cond" {
 				// also without the parentheses (the bare call / filter chain as the tag's whole expression)
-				occs = append(occs, C06Case{Occ: strings.ReplaceAll(p.src, "V", b.expr), Refuse: []string{b.refuse}})
+				occs = append(occs, C06Case{Occ: strings.ReplaceAll(p.src, "V", b.expr), Refuse: []string{b.refuse}, Probe: probeOcc})
 			}
 		}
 	}
+	// tags that apply a built-in filter themselves
+	occs = append(occs, C06Case{Occ: "{% spaceless %}<b> x </b> <i>y</i>{% endspaceless %}", Refuse: []string{"|spaceless"}},
+		C06Case{Occ: "{% apply upper %}x{{ x }}{% endapply %}", Refuse: []string{"|upper"}},
+		C06Case{Occ: "{% apply lower|trim %} X {% endapply %}", Refuse: []string{"|trim"}},
+		C06Case{Occ: "{% apply escape %}<{{ x }}>{% endapply %}", Refuse: []string{"|escape"}})
 	for _, o := range c06DualOccs {
 		name := "dual"
 		if strings.Contains(o, "merge") {
@@ -592,7 +620,7 @@ func TestC06Flip(t *testing.T) {
 	})
 }
 
-const c06Rule = "a forbidden spy filter or function written in one of 26 (filter) / 21 (function) syntactic positions, reached from `include 'inner' sandboxed` (optionally with/only, placed at top level, in a loop, condition, block or macro of the unsandboxed template) through a chain of 0-3 carriers out of 14 (include, include only, include with, extends with override, extends with the occurrence in the parent, parent(), import-as + call, from-import + call, local macro, apply, for, if, block, set) under DefaultSecurityPolicy or a harness policy type; non-trivial = the occurrence is live (the spy runs when the include is not sandboxed) and it is not the head of a print tag directly in the sandboxed template; distinct by case parameters"
+const c06Rule = "a forbidden spy filter or function written in one of 26 (filter) / 21 (function) syntactic positions, reached from `include 'inner' sandboxed` (optionally with/only, placed at top level, in a loop, condition, block or macro of the unsandboxed template) through a chain of 0-3 carriers out of 16 (top-level code of an imported library (import as / from import), include, include only, include with, extends with override, extends with the occurrence in the parent, parent(), import-as + call, from-import + call, local macro, apply, for, if, block, set) under DefaultSecurityPolicy or a harness policy type; non-trivial = the occurrence is live (the spy runs when the include is not sandboxed) and it is not the head of a print tag directly in the sandboxed template; distinct by case parameters"
 
 func TestC06Sandbox(t *testing.T) {
 	r := NewRec(t, "C06", c06Rule)
